@@ -497,6 +497,23 @@ func genRelay(g *genCtx, r *rand.Rand, emit func(Case)) {
 			}
 		}
 	}
+	// canonical images in which the text travels in an optional parameter: with an empty body (base assignment) and next to one
+	for _, tn := range typeNames {
+		tf := tailField(tn)
+		if tf == "" {
+			continue
+		}
+		for _, tag := range []int{0x0424, 0x0204, 0x001e, 1, 2} {
+			for _, full := range []bool{false, true} {
+				a := defaultAssign(r, tn, full)
+				a[tf] = fval{tlvs: []tlvVal{{tag, randBytes(r, 1+r.Intn(60))}}}
+				fixCounts(tn, a)
+				if img, err := build(tn, a).IEncode(); err == nil {
+					relay(tn, img)
+				}
+			}
+		}
+	}
 	// the far end of the scope: the largest destination counts with the longest bodies (whatever a decoder accepts
 	// must be encodable again)
 	for _, tn := range typeNames {
